@@ -323,7 +323,10 @@ def oracle_gctm(pc, h, p, L):
 #   L=5: 0.199 / 0.137 / 0.0048.  The bands are 1.5-2.4 x the worst observed value (the distribution has a heavy tail — low
 #   profiles, where h/h_scaling << 1 makes the high moments invisible to the optimiser — so no 100 x margin is possible without
 #   making the clause empty; the previous band was 1.0 for every L).
-GCTM_BAND = {1: (1e-12, 1e-12, 1e-12), 2: (0.15, 0.01, 0.06), 3: (0.30, 0.02, 0.02), 4: (0.30, 0.04, 0.02), 5: (0.30, 0.25, 0.02)}
+#   Integrator's soak (2026-09-27, 30 000 further profiles, 12 seeds): worst L=2: 0.113 / 0.0117 / 0.0129 (one profile beyond the
+#   0.01 first chosen for moment 0 — a false alarm in waiting, about 3 % per thorough run), L=3: 0.170 / 0.0053 / 0.0081,
+#   L=4: 0.192 / 0.033 / 0.0054, L=5: 0.195 / 0.121 / 0.0052.  The bands are now about 3 x the worst of both measurements.
+GCTM_BAND = {1: (1e-12, 1e-12, 1e-12), 2: (0.35, 0.05, 0.10), 3: (0.50, 0.03, 0.03), 4: (0.50, 0.10, 0.03), 5: (0.50, 0.40, 0.03)}
 
 
 # ------------------------------------------------------------------------------------------------ the check
@@ -370,8 +373,8 @@ def run(chk):
         "el_h_moment / el_w_moment assume every slab carries turbulence (finding el:empty-slab:nan-height otherwise)",
         "GCTM: 'reproduces the first 2L-1 moments to optimiser accuracy' is numeric only (scipy L-BFGS-B is external): the oracle "
         "checks that the residual does not exceed that of the starting guess and that the scaled moments stay inside per-L bands "
-        "calibrated on the repaired tree (GCTM_BAND: L=1 exact to 1e-12; L=2..5 up to 15-30 % on the worst single moment, 1-25 % "
-        "on the total Cn2, 2-6 % on the norm of the moment vector — the measured accuracy of L-BFGS-B's default tolerances, see "
+        "calibrated on the repaired tree (GCTM_BAND: L=1 exact to 1e-12; L=2..5 up to 35-50 % on the worst single moment, 3-40 % "
+        "on the total Cn2, 3-10 % on the norm of the moment vector — the measured accuracy of L-BFGS-B's default tolerances, see "
         "notes/asbuilt/C18.md); the worst values of each run are recorded in the evidence notes",
         "og_heights_subset_sorted ('heights in increasing order') has the hypothesis hmono: the INPUT heights are strictly "
         "increasing (descending input comes back descending: theorem og_heights_descending_input); the part that needs no "
